@@ -193,10 +193,30 @@ type shardResult struct {
 	logPath   string
 	outPath   string
 	racePaths []string
+	// stall handling: the child reported that one case made no progress;
+	// stallRuns fresh re-executions of that case were made, stallAgain of
+	// them stalled again
+	stall      *record
+	stallRuns  int
+	stallAgain int
 }
 
-func runShard(bin, build, prop, tier string, seed uint64, shard, nshards int, rundir string, watchdog time.Duration, replay int64, reps int) shardResult {
+func stallOf(recs []record) *record {
+	for i := range recs {
+		if recs[i].T == "stall" {
+			return &recs[i]
+		}
+	}
+	return nil
+}
+
+// runShard runs one child. extra[0], when given, is a suffix for the
+// file names of this run; further entries are environment settings.
+func runShard(bin, build, prop, tier string, seed uint64, shard, nshards int, rundir string, watchdog time.Duration, replay int64, reps int, extra ...string) shardResult {
 	tag := fmt.Sprintf("%s-%02d", build, shard)
+	if len(extra) > 0 {
+		tag += extra[0]
+	}
 	res := shardResult{build: build, shard: shard,
 		logPath: filepath.Join(rundir, tag+".log"), outPath: filepath.Join(rundir, tag+".jsonl")}
 	logf, err := os.Create(res.logPath)
@@ -221,6 +241,9 @@ func runShard(bin, build, prop, tier string, seed uint64, shard, nshards int, ru
 		}
 	}
 	cmd.Env = append(cmd.Env, "VERIF_KNOWN="+strings.Join(ks, ","))
+	if len(extra) > 1 {
+		cmd.Env = append(cmd.Env, extra[1:]...)
+	}
 	if strings.HasPrefix(build, "race") {
 		cmd.Env = append(cmd.Env, "GORACE=halt_on_error=0 history_size=3 log_path="+filepath.Join(rundir, "racelog-"+tag))
 	}
@@ -322,15 +345,69 @@ func cmdRun(args []string) int {
 	}
 
 	results := runAll(id, *tier, seed, builds, bins, rundir, 1)
-	// an inconclusive shard is re-run once with a doubled watchdog
-	for i, r := range results {
-		if !r.done && r.timedOut {
+	// a shard whose child reported a stalled case: that case is executed
+	// again in two fresh processes with twice the patience. Only a stall
+	// that repeats in both is a verdict (the call does not come back);
+	// otherwise the shard is run again from the start.
+	stallLimit := 90
+	if *tier == "thorough" {
+		stallLimit = 180
+	}
+	var rwg sync.WaitGroup
+	for i := range results {
+		r := &results[i]
+		st := stallOf(r.recs)
+		if r.done || st == nil {
+			continue
+		}
+		rwg.Add(1)
+		go func(i int, r *shardResult, st *record) {
+			defer rwg.Done()
 			b := findBuild(builds, r.build)
-			fmt.Fprintf(os.Stderr, "shard %s-%d hit the watchdog, re-running once with a doubled watchdog\n", r.build, r.shard)
+			fmt.Fprintf(os.Stderr, "shard %s-%d: case %d made no progress; re-executing it twice in fresh processes\n", r.build, r.shard, st.CaseIdx)
+			var again [2]bool
+			var cwg sync.WaitGroup
+			for k := 0; k < 2; k++ {
+				cwg.Add(1)
+				go func(k int) {
+					defer cwg.Done()
+					rr := runShard(bins[r.build], r.build, id, *tier, seed, r.shard, b.shards, rundir, time.Duration(4*stallLimit)*time.Second, st.CaseIdx, 1,
+						fmt.Sprintf("-stallcheck%d", k), fmt.Sprintf("VERIF_STALL=%d", 2*stallLimit))
+					again[k] = !rr.done && (stallOf(rr.recs) != nil || rr.timedOut)
+				}(k)
+			}
+			cwg.Wait()
+			n := 0
+			for _, a := range again {
+				if a {
+					n++
+				}
+			}
+			if n == 2 {
+				r.stall, r.stallRuns, r.stallAgain = st, 2, n
+				return
+			}
+			fmt.Fprintf(os.Stderr, "shard %s-%d: the stall did not repeat (%d of 2); running the shard again\n", r.build, r.shard, n)
 			_ = os.Rename(r.logPath, r.logPath+".first")
 			results[i] = runShard(bins[r.build], r.build, id, *tier, seed, r.shard, b.shards, rundir, 2*b.watchdog(*tier), -1, 1)
+		}(i, r, st)
+	}
+	rwg.Wait()
+	// an inconclusive shard is re-run once with a doubled watchdog
+	for i := range results {
+		r := results[i]
+		if !r.done && r.timedOut && r.stall == nil {
+			rwg.Add(1)
+			go func(i int, r shardResult) {
+				defer rwg.Done()
+				b := findBuild(builds, r.build)
+				fmt.Fprintf(os.Stderr, "shard %s-%d hit the watchdog, re-running once with a doubled watchdog\n", r.build, r.shard)
+				_ = os.Rename(r.logPath, r.logPath+".first")
+				results[i] = runShard(bins[r.build], r.build, id, *tier, seed, r.shard, b.shards, rundir, 2*b.watchdog(*tier), -1, 1)
+			}(i, r)
 		}
 	}
+	rwg.Wait()
 
 	known := loadFindings()
 	var evals int64
@@ -397,6 +474,13 @@ func cmdRun(args []string) int {
 		if !r.done {
 			logtxt := tail(r.logPath, 1<<20)
 			switch {
+			case r.stall != nil:
+				addViol(record{T: "viol", Prop: id, Sig: id + "/no-progress", Build: r.build, Case: r.stall.Case, CaseIdx: r.stall.CaseIdx, Seed: seed,
+					Detail: fmt.Sprintf("the case did not complete: no monitor step finished for %d s in the shard run, and again for %d s in %d of %d fresh re-executions of this case alone (the other cases of this check complete in milliseconds to seconds); the goroutine dump of the first stall is the witness",
+						stallLimit, 2*stallLimit, r.stallAgain, r.stallRuns),
+					Witness: r.stall.Witness})
+			case stallOf(r.recs) != nil:
+				inconc = append(inconc, fmt.Sprintf("%s-%d: a case stalled and the re-run of the shard did not finish either (%s)", r.build, r.shard, r.logPath))
 			case r.timedOut:
 				inconc = append(inconc, fmt.Sprintf("%s-%d: watchdog expired (goroutine dump in %s)", r.build, r.shard, r.logPath))
 			case strings.Contains(logtxt, "panic:") || strings.Contains(logtxt, "fatal error:") || strings.Contains(logtxt, "checkptr"):
